@@ -91,7 +91,12 @@ func (c *clientProcessRunner) sendRequest(req *conformancev1.ClientCompatRequest
 	defer c.sendMu.Unlock()
 
 	if c.closedSend {
-		return errClosed
+		// The client is gone (or was told that no more requests are coming), so
+		// this request can't be run. That must fail the run, even if the client
+		// process itself ended without an error.
+		err := errClosed
+		c.err.CompareAndSwap(nil, &err)
+		return err
 	}
 
 	// We have to eagerly add to pending set. If we waited until after
